@@ -73,6 +73,17 @@ def checkTracks (c : Cfg) (s : State) (skip : SrcP → Bool) : Option String :=
         else none
       | _, _ => some s!"T{t}.p{kv.1}: link to a source that does not exist"
 
+/-- every value a target holds (and every class default) satisfies the parameter's constraints -/
+def checkValues (c : Cfg) (s : State) : Option String :=
+  firstSome (List.range (ntargets s)) fun t =>
+    firstSome (List.range ((s.tgt[t]?).getD []).length) fun p =>
+      match c.decl t p, tgtVal s t p, (s.cls[t]?).bind (·[p]?) with
+      | some d, some v, some dv =>
+        if !d.valid v then some s!"T{t}.p{p} holds a value that violates its constraints"
+        else if !d.valid dv then some s!"the class default of T{t}.p{p} violates its constraints"
+        else none
+      | _, _, _ => some s!"T{t}.p{p}: value missing"
+
 /-- every dependency of every live link is watched; no watcher twice -/
 def checkWatched (c : Cfg) (s : State) : Option String :=
   (firstSome (List.range (ntargets s)) fun t =>
@@ -132,14 +143,6 @@ def checkSrcStep (c : Cfg) (pre post : State) (d : SrcP) (log : List Entry) : Op
       else none)
   <|> (if pre.watch != post.watch then some "a source update changed the _sync_refs watchers" else none)
 
-/-- an accepted operation on t owes exact watchers when it installs a reference and no later key of
-the same operation overrides a linked parameter with a plain value -/
-def owesExact (c : Cfg) (pre : State) (t : Nat) : List (Nat × Rhs) → Bool
-  | [] => false
-  | kv :: rest =>
-    if (linkDeps c t kv).isEmpty then owesExact c pre t rest
-    else owesExact c pre t rest || !rest.any (fun kv' => (linkDeps c t kv').isEmpty && (refOf pre t kv'.1).isSome)
-
 structure Open where      -- an open `update` context as the oracle remembers it
   t : Nat
   keys : List Nat
@@ -190,21 +193,16 @@ def specC08 (c : Cfg) (init : State) (steps : List (Op × StepObs)) : Nat × Opt
             | none => none)
         <|> checkTracks c post (fun d => failed'.contains d)
         <|> checkWatched c post
-        -- exactness is owed at once by an operation that installs a reference on t
-        <|> (match keysOf op with
-              | some (t, kvs) =>
-                if ok && owesExact c pre t kvs then
-                  (leftover c post t).map fun d => s!"after relinking T{t} its _sync_refs watcher is still registered on S{d.1}.v{d.2}, which no link of T{t} depends on"
-                else none
-              | none => none)
+        -- the watchers of every target sit exactly on the dependencies of its live links
+        <|> ((List.range (ntargets post)).findSome? fun t => (leftover c post t).map fun d =>
+              s!"T{t} keeps a _sync_refs watcher on S{d.1}.v{d.2} although no link of T{t} depends on it")
+        <|> checkValues c post
       match hard with
       | some why => (n, some (.hard s!"step {n}: {why}"))
       | none =>
         let fnd1 : Option Verdict := fnd <|>
           ((checkTracks c post (fun _ => false)).map fun why =>
             .finding "failed-sync-leaves-valid-links-stale" s!"step {n}: {why} (a source update raised earlier from inside _sync_refs)")
-          <|> ((List.range (ntargets post)).findSome? fun t => (leftover c post t).map fun d =>
-            .finding "override-leaves-ref-watcher" s!"step {n}: T{t} keeps a _sync_refs watcher on S{d.1}.v{d.2} although no link of T{t} depends on it any more")
         let stack' := match op, ok with
           | .ctxEnter t kvs, true =>
             let ks := (dedupKeys kvs).map (·.1)
@@ -213,7 +211,7 @@ def specC08 (c : Cfg) (init : State) (steps : List (Op × StepObs)) : Nat × Opt
           | _, _ => stack
         go post rest failed' stack' (n + 1) fnd1
   let initHard : Option String :=
-    checkTracks c init (fun _ => false) <|> checkWatched c init
+    checkTracks c init (fun _ => false) <|> checkWatched c init <|> checkValues c init
     <|> ((List.range (ntargets init)).findSome? fun t => (leftover c init t).map fun d =>
           s!"after construction T{t} has a _sync_refs watcher on S{d.1}.v{d.2} that no link needs")
   match initHard with
